@@ -106,7 +106,10 @@ func (*Service) signRootsMulti(ctx context.Context,
 			}
 			sig, err := signer.Sign(ctx, hashTreeRoot[:])
 			if err != nil {
-				return []phase0.BLSSignature{}, err
+				// As with a multi-signer, an account that cannot sign yields no signature
+				// rather than taking the signatures of the other accounts with it.
+				log.Warn().Err(err).Str("account", accounts[i].Name()).Msg("Failed to sign; no signature for account")
+				continue
 			}
 			copy(sigs[i][:], sig.Marshal())
 		}
